@@ -173,6 +173,10 @@ fn do_set(st: &mut RState, key: &[u8], value: Vec<u8>, flags: Option<u32>, req_c
             }
         }
     }
+    if req_cas != 0 && !st.items.contains_key(key) && rs == status::NOT_FOUND {
+        // a server may refuse a CAS-carrying store of a missing key (memcached does)
+        return true;
+    }
     if rs != status::OK {
         return false;
     }
